@@ -6,6 +6,7 @@ import HtpModel.Lemmas.ConsumedOut
 import HtpModel.Lemmas.BufInv
 import HtpModel.Lemmas.OutConsumed
 import HtpModel.Lemmas.Owed
+import HtpModel.Lemmas.OwedOut
 
 namespace Htp.C09
 open Htp.Conn Htp.Gen
@@ -226,6 +227,26 @@ theorem C09_req_call_invariant (cfg : Cfg) (d : Bytes) (c : Conn) (hs : (d.lengt
 
 /-- non-vacuity: a freshly created connection satisfies both state hypotheses -/
 example : inBufLen ({} : Conn) ≤ (({} : Cfg).fieldLimitHard) ∧ OwedPos ({} : Conn) := by
+  refine ⟨by decide, ⟨fun e => ?_, fun e => ?_⟩⟩ <;> exact absurd e (by decide)
+
+/-- **C09 (DATA means the whole chunk was consumed), whole response data call, no outside fact**: on the response side even `ClAtDecision` is
+    not needed - RES_BODY_DETERMINE refuses a negative Content-Length and enters the counted state only for a non-zero one. From ANY
+    state with the line buffer within the limit and the counted body states owing bytes, any chunk of data, any callback policy:
+    htp_connp_res_data returning STREAM_DATA has read = len. -/
+theorem C09_res_call_data_means_consumed_inv (cfg : Cfg) (d : Bytes) (c : Conn) (hs : (d.length : Int) < 18446744073709551616)
+    (hb : outBufLen c ≤ cfg.fieldLimitHard) (h0 : OwedPosO c)
+    (hdata : (resData cfg (some d) d.length c).2 = STREAM_DATA) :
+    (resData cfg (some d) d.length c).1.out.read = (resData cfg (some d) d.length c).1.out.len :=
+  resData_data_consumed_inv cfg d c hs hb h0 hdata
+
+/-- ... and both state hypotheses hold again when htp_connp_res_data returns: an invariant of response data calls (calls of the request
+    direction in between are not covered by this theorem) -/
+theorem C09_res_call_invariant (cfg : Cfg) (d : Bytes) (c : Conn) (hs : (d.length : Int) < 18446744073709551616)
+    (hb : outBufLen c ≤ cfg.fieldLimitHard) (h0 : OwedPosO c) :
+    outBufLen (resData cfg (some d) d.length c).1 ≤ cfg.fieldLimitHard ∧ OwedPosO (resData cfg (some d) d.length c).1 :=
+  resData_invariant cfg d c hs hb h0
+
+example : outBufLen ({} : Conn) ≤ (({} : Cfg).fieldLimitHard) ∧ OwedPosO ({} : Conn) := by
   refine ⟨by decide, ⟨fun e => ?_, fun e => ?_⟩⟩ <;> exact absurd e (by decide)
 
 end Htp.C09
